@@ -56,6 +56,13 @@ ScrollAlphabet(t) ==
   \cup {F2("Cup", a, 1) : a \in 1..t.rows}
   \cup {F1("Print", 120), FS("Sgr", <<<<48, 2>>>>), FS("Sgr", <<<<0, 0>>>>)}
   \cup {FS("Decset", <<1047>>), FS("Decrst", <<1047>>)}
+(* lean alphabet for depth 3: margins x cursor row x one scrolling / moving command *)
+Scroll2Alphabet(t) ==
+     {F0(f) : f \in {"Lf", "Nel", "Ri"}} \cup {F1(f, 1) : f \in {"Su", "Sd", "Il", "Dl", "Cuu", "Cud"}}
+  \cup {F2("Decstbm", a, b) : a \in 0..t.rows, b \in 0..(t.rows + 1)}
+  \cup {F2("Cup", a, 1) : a \in 1..t.rows} \cup {FS("Decset", <<6>>)}
+Scroll2Sizes == {<<2, 3>>, <<1, 4>>}
+Scroll2Fills == {Labelled(4, 2)}
 ScrollSizes == {<<1, 1>>, <<2, 2>>, <<1, 3>>, <<2, 3>>, <<2, 4>>}
 ScrollSizesQ == {<<1, 1>>, <<2, 2>>, <<2, 3>>}
 ScrollSizesT == {<<1, 1>>, <<2, 2>>, <<1, 3>>, <<2, 3>>}
